@@ -496,6 +496,58 @@ def perm_matrix(perm, r0=0, m=None):
     return u
 
 
+# relation of the mode ranges of two permutations that meet in `perm_compose` / in the successive branch of
+# `_simplify_perm` (first mode o, size n each)
+PAIR_RELATIONS = ("same-range", "same-size-shifted-overlap", "same-size-disjoint", "nested", "diff-size-overlap",
+                  "diff-size-disjoint")
+
+
+def pair_relation(o1, n1, o2, n2):
+    a1, b1, a2, b2 = o1, o1 + n1, o2, o2 + n2
+    if (a1, b1) == (a2, b2):
+        return "same-range"
+    if n1 == n2:
+        return "same-size-shifted-overlap" if abs(o1 - o2) < n1 else "same-size-disjoint"
+    if (a1 <= a2 and b2 <= b1) or (a2 <= a1 and b1 <= b2):
+        return "nested"
+    if b1 <= a2 or b2 <= a1:
+        return "diff-size-disjoint"
+    return "diff-size-overlap"
+
+
+def gen_related_range(rng, m, o1, n1, rel):
+    """(first mode, size) of a second permutation on m modes in the relation `rel` to the range (o1, n1); None when
+    the circuit has no room for it"""
+    cands = [(o2, n2) for n2 in range(1, m + 1) for o2 in range(0, m - n2 + 1)
+             if pair_relation(o1, n1, o2, n2) == rel and (n2 >= 2 or rel in ("nested", "diff-size-disjoint"))]
+    return rng.choice(cands) if cands else None
+
+
+def gen_moving_perm(rng, n):
+    """a permutation of n modes that moves its first and its last mode (`reduce_perm` trims nothing: the range it
+    is placed on is the range it acts on)"""
+    if n < 2:
+        return [0] * n
+    for _ in range(20):
+        p = gen_perm_vec(rng, n)
+        if p[0] != 0 and p[-1] != n - 1:
+            return p
+    return list(range(1, n)) + [0]
+
+
+def is_perm_of(v, n):
+    return isinstance(v, (list, tuple)) and len(v) == n and sorted(int(x) for x in v) == list(range(n))
+
+
+def holds(fn):
+    """an oracle expression evaluated on what the real code returned: a result so malformed that the expression
+    cannot even be evaluated does not satisfy it"""
+    try:
+        return bool(fn())
+    except Exception:
+        return False
+
+
 def run_perm_helpers(chk):
     from perceval.utils.algorithms import simplification as S
     nmax = chk.pick(4, 5)
@@ -504,6 +556,7 @@ def run_perm_helpers(chk):
     wide = [gen_perm_vec(chk.rng, chk.rng.randint(nmax + 1, chk.pick(24, 40))) for _ in range(chk.pick(40, 200))]
     perms += wide
     reqs, real, oracle = [], [], []
+
     def guarded(fn, *a):
         try:
             return fn(*a)
@@ -512,36 +565,64 @@ def run_perm_helpers(chk):
                      {"part": "perm-helper", "fn": fn.__name__, "args": [list(x) if isinstance(x, tuple) else x for x in a]})
             return None
 
+    def record(fn, req, args, observe, check):
+        """`observe()` reads the helper's result into plain data, `check()` is the direct oracle on it; a result
+        that cannot be read (wrong arity, not sequences of integers) is reported for this input"""
+        try:
+            obs = observe()
+        except Exception as e:
+            chk.fail("violation", f"{fn}-matrix", f"{fn}{args}: the result is not a (range, permutation) pair of "
+                     f"integer sequences ({type(e).__name__}: {str(e)[:80]})", {"part": "perm-helper", "fn": fn, "args": args})
+            return
+        reqs.append(req)
+        real.append((fn, args, obs))
+        oracle.append(holds(check))
+
     for p in perms:
         n = len(p)
         # invert_permutation
         out = guarded(S.invert_permutation, list(p))
         if out is None:
             continue
-        reqs.append({"op": "perm", "fn": "invert", "perm": p})
-        real.append(("invert", p, {"out": [int(x) for x in out]}))
-        oracle.append(np.array_equal(perm_matrix(out), perm_matrix(p).T))
+        record("invert", {"op": "perm", "fn": "invert", "perm": p}, p,
+               lambda: {"out": [int(x) for x in out]},
+               lambda: is_perm_of(out, n) and np.array_equal(perm_matrix(out), perm_matrix(p).T))
         for r0 in ((0, 1, 3) if n <= nmax else (0, chk.rng.randint(1, 12))):
             r = tuple(range(r0, r0 + n))
             # reduce_perm
             res_ = guarded(S.reduce_perm, r, list(p))
             if res_ is None:
                 continue
-            nr, np_ = res_
-            reqs.append({"op": "perm", "fn": "reduce", "r0": r0, "perm": p})
-            real.append(("reduce", (r0, p), {"r0": (nr[0] if len(nr) else None), "out": [int(x) for x in np_],
-                                              "len": len(nr)}))
             big = r0 + n + 1
-            oracle.append(len(nr) == len(np_) and np.array_equal(
-                perm_matrix(np_, nr[0], big) if len(nr) else np.eye(big), perm_matrix(p, r0, big)))
+
+            def obs_reduce(res_=res_):
+                nr, np_ = res_
+                return {"r0": (int(nr[0]) if len(nr) else None), "out": [int(x) for x in np_], "len": len(nr)}
+
+            def ok_reduce(res_=res_, r0=r0, p=p, big=big):
+                nr, np_ = res_
+                if len(nr) != len(np_) or not is_perm_of(np_, len(np_)):
+                    return False
+                if not len(nr):
+                    return np.array_equal(np.eye(big), perm_matrix(p, r0, big))
+                return list(nr) == list(range(nr[0], nr[0] + len(nr))) and \
+                    np.array_equal(perm_matrix(np_, nr[0], big), perm_matrix(p, r0, big))
+            record("reduce", {"op": "perm", "fn": "reduce", "r0": r0, "perm": p}, (r0, p), obs_reduce, ok_reduce)
             for m in (r0 + n, r0 + n + 2):
                 res_ = guarded(S.extend_perm, r, list(p), m)
                 if res_ is None:
                     continue
-                er, ep = res_
-                reqs.append({"op": "perm", "fn": "extend", "r0": r0, "perm": p, "m": m})
-                real.append(("extend", (r0, p, m), {"out": [int(x) for x in ep], "r": list(er)}))
-                oracle.append(list(er) == list(range(m)) and np.array_equal(perm_matrix(ep), perm_matrix(p, r0, m)))
+
+                def obs_extend(res_=res_):
+                    er, ep = res_
+                    return {"out": [int(x) for x in ep], "r": [int(x) for x in er]}
+
+                def ok_extend(res_=res_, r0=r0, p=p, m=m):
+                    er, ep = res_
+                    return list(er) == list(range(m)) and is_perm_of(ep, m) and \
+                        np.array_equal(perm_matrix(ep), perm_matrix(p, r0, m))
+                record("extend", {"op": "perm", "fn": "extend", "r0": r0, "perm": p, "m": m}, (r0, p, m),
+                       obs_extend, ok_extend)
     # perm_compose: all pairs of small permutations at all small offsets
     cmax = chk.pick(3, 4)
     small = [p for p in perms if len(p) <= cmax]
@@ -551,24 +632,45 @@ def run_perm_helpers(chk):
               for _ in range(chk.pick(60, 300))]
     pairs += [(chk.rng.choice(small), chk.rng.choice(wide), chk.rng.randint(0, 30), chk.rng.randint(0, 10))
               for _ in range(chk.pick(20, 100))]
+    # pairs in every relation of the two mode ranges (same range / same size shifted / nested / disjoint /
+    # overlapping), sizes beyond the exhaustive part, permutations that move their end modes
+    for rel in PAIR_RELATIONS:
+        for _ in range(chk.pick(25, 120)):
+            m = chk.rng.randint(4, chk.pick(12, 24))
+            n1 = chk.rng.randint(2, max(2, m - 1))
+            o1 = chk.rng.randint(0, m - n1)
+            second = gen_related_range(chk.rng, m, o1, n1, rel)
+            if second is None:
+                continue
+            o2, n2 = second
+            pairs.append((gen_moving_perm(chk.rng, n1), gen_moving_perm(chk.rng, n2), o1, o2))
     for lp, rp, lr0, rr0 in pairs:
         lr = tuple(range(lr0, lr0 + len(lp)))
         rr = tuple(range(rr0, rr0 + len(rp)))
         res_ = guarded(S.perm_compose, lr, list(lp), rr, list(rp))
         if res_ is None:
             continue
-        nr, npm = res_
-        reqs.append({"op": "perm", "fn": "compose", "lr0": lr0, "lperm": lp, "rr0": rr0, "rperm": rp})
-        real.append(("compose", (lr0, lp, rr0, rp), {"n": len(nr), "out": [int(x) for x in npm]}))
-        mm = len(nr)
-        oracle.append(list(nr) == list(range(mm)) and np.array_equal(
-            perm_matrix(npm), perm_matrix(rp, rr0, mm) @ perm_matrix(lp, lr0, mm)))
+        mm = max(lr0 + len(lp), rr0 + len(rp))
+
+        def obs_compose(res_=res_):
+            nr, npm = res_
+            return {"n": len(nr), "out": [int(x) for x in npm]}
+
+        def ok_compose(res_=res_, lp=lp, rp=rp, lr0=lr0, rr0=rr0, mm=mm):
+            # the fused permutation acts on modes 0 .. mm-1 (mm: the last mode either side reaches, plus one)
+            nr, npm = res_
+            return list(nr) == list(range(mm)) and is_perm_of(npm, mm) and np.array_equal(
+                perm_matrix(npm), perm_matrix(rp, rr0, mm) @ perm_matrix(lp, lr0, mm))
+        record("compose", {"op": "perm", "fn": "compose", "lr0": lr0, "lperm": lp, "rr0": rr0, "rperm": rp},
+               (lr0, lp, rr0, rp), obs_compose, ok_compose)
     reps = chk.lean.ask_many(reqs)
     for (fn, args, obs), rep, ok in zip(real, reps, oracle):
         chk.branch("perm-" + fn)
         vecs = [args] if isinstance(args, list) else [a for a in args if isinstance(a, list)]
         if any(len(v) > nmax for v in vecs):
             chk.branch("perm-wide-" + fn)
+        if fn == "compose":
+            chk.branch("perm-compose-pair-" + pair_relation(args[0], len(args[1]), args[2], len(args[3])))
         chk.case(("perm", fn, json.dumps(args)), nontrivial=True,
                  sample={"part": "perm-helper", "fn": fn, "args": args})
         if fn == "reduce":
@@ -807,6 +909,44 @@ def gen_shift_cases(rng, chk):
     return out
 
 
+def gen_simp_perm_runs(rng, chk):
+    """Runs of 2..4 CONSECUTIVE permutations whose mode ranges stand in a chosen relation (same range / same size
+    shifted by 1..size / same size further away / nested / different sizes overlapping / disjoint): the successive
+    branch of `_simplify_perm` fuses them with `perm_compose` + `reduce_perm`, and only pairs on the same range or
+    of different sizes come up by themselves often.  Most permutations move their end modes (nothing is trimmed:
+    the range in the list is the range acted on); now and then the second one is the inverse of the first."""
+    m = rng.randint(3, chk.pick(8, 10)) if rng.random() < 0.9 else rng.randint(WIDE_MIN, chk.pick(16, 24))
+    vcount = [0]
+    side_kinds = MID_KINDS + ("PERM",)
+
+    def pvec(n):
+        return gen_moving_perm(rng, n) if rng.random() < 0.75 else gen_perm_vec(rng, n)
+    ops = gen_simp_flat(rng, m, rng.randint(0, 3), vcount, kinds=side_kinds)
+    n1 = rng.randint(2, max(2, min(m - 1, 6)))
+    o1 = rng.randint(0, m - n1)
+    first = pvec(n1)
+    ops.append({"off": o1, "leaf": {"t": "PERM", "perm": first}})
+    hull, prev = (o1, n1), first
+    for _ in range(rng.randint(1, 3)):
+        rel = rng.choice(PAIR_RELATIONS + ("same-size-shifted-overlap", "same-size-shifted-overlap", "same-size-disjoint"))
+        second = gen_related_range(rng, m, hull[0], hull[1], rel)
+        if second is None:
+            n2 = rng.randint(2, m)
+            second = (rng.randint(0, m - n2), n2)
+        o2, n2 = second
+        if (o2, n2) == hull and len(prev) == n2 and rng.random() < 0.3:
+            vec = [0] * n2
+            for i, x in enumerate(prev):
+                vec[x] = i                           # the inverse: the pair fuses into nothing
+        else:
+            vec = pvec(n2)
+        ops.append({"off": o2, "leaf": {"t": "PERM", "perm": vec}})
+        lo, hi = min(hull[0], o2), max(hull[0] + hull[1], o2 + n2)
+        hull, prev = (lo, hi - lo), vec              # what the fused permutation spans (before trimming)
+    ops += gen_simp_flat(rng, m, rng.randint(0, 3), vcount, kinds=side_kinds)
+    return {"m": m, "ops": ops, "display": rng.random() < 0.5, "as_list": rng.random() < 0.25}
+
+
 def gen_simp_case(rng, chk):
     r = rng.random()
     if r < 0.30:
@@ -1002,6 +1142,17 @@ def judge_simplify(chk, case, count=True):
         if rep.get("ok"):
             if count:
                 chk.branch("simp-" + rep["tag"])
+                if rep["tag"] == "successive" and coded[k - 1] and coded[k - 1][-1]["k"] == "perm":
+                    # two permutations meet: how the range of the incoming one lies to the range of the last one
+                    a, b2 = coded[k - 1][-1], reqs[k - 1]["new"]
+                    rel = pair_relation(a["r0"], a["w"], b2["r0"], b2["w"])
+                    chk.branch("perm-pair-" + rel)
+                    chk.branch(f"perm-pair-{rel}-{'display' if display else 'compute'}")
+                    inv_a = [0] * a["w"]
+                    for i_, x_ in enumerate(a["perm"]):
+                        inv_a[x_] = i_
+                    if inv_a != a["perm"] and rel != "same-range":
+                        chk.branch("perm-pair-non-self-inverse-off-range")
                 if rep["tag"] == "non-successive/unravelled":
                     count_unravel_shape(chk, m, coded[k - 1])
                 if rep.get("exact"):
@@ -1813,8 +1964,364 @@ def handle_copy(chk, case):
 
 
 # ------------------------------------------------------------------------------------------------
+# F. histories: transformation A, then transformation B, ... on ONE object (Model/C11Chain.lean, driver op `chain`)
+# ------------------------------------------------------------------------------------------------
+# Every transformation keeps two or more views of a component in step (BS: the attributes `_theta/_phi_xx` read by
+# compute_unitary and the table `_params` read by copy() / describe(); Circuit: `_components` and `_params`; PERM /
+# Unitary: `_u` and the permutation vector).  A view left behind by step A shows only in what step B reads.  The family
+# runs every ORDERED PAIR of the nine transformations below (and longer histories) on one object and evaluates the matrix
+# law of each step on the object the previous step left: inverse -> xform, every other step -> unchanged.
+CHAIN_STEPS = ("inv-v", "inv-h", "inv-vh", "copy", "pcopy", "simplify", "decompose", "flatten", "regroup")
+CHAIN_LEAF_STEPS = ("inv-v", "inv-h", "inv-vh", "copy")        # what a lone component offers
+CHAIN_PAIRS = [(a, b) for a in CHAIN_STEPS for b in CHAIN_STEPS]
+CHAIN_TRANSPARENT = {"copy": ["copy"], "pcopy": ["copy"], "flatten": ["flat"]}     # steps the tree model follows
+
+
+def chain_step(rng, name):
+    st = {"k": name}
+    if name == "simplify":
+        st["display"] = rng.random() < 0.4
+    if name == "decompose":
+        st["merge"] = rng.random() < 0.5
+    return st
+
+
+def four_unequal(spec):
+    return spec["t"] == "BS" and len({json.dumps(spec[k]) for k in ("tl", "bl", "tr", "br")}) == 4
+
+
+def gen_bs_four_phases(rng):
+    while True:
+        spec = gens.gen_leaf(rng, 2, kinds=("BS",))
+        if four_unequal(spec):
+            return spec
+
+
+def gen_chain_case(rng, chk, pair=None):
+    lone = rng.random() < 0.12 and (pair is None or (pair[0] in CHAIN_LEAF_STEPS and pair[1] in CHAIN_LEAF_STEPS))
+    names = CHAIN_LEAF_STEPS if lone else CHAIN_STEPS
+    if pair is None:
+        steps = [rng.choice(names) for _ in range(rng.randint(2, chk.pick(4, 5)))]
+    else:
+        steps = list(pair)
+        if rng.random() < 0.3:
+            steps.insert(0, rng.choice(names))
+        if rng.random() < 0.3:
+            steps.append(rng.choice(names))
+    steps = [chain_step(rng, s) for s in steps]
+    if lone:
+        spec = gen_bs_four_phases(rng) if rng.random() < 0.6 else gen_leaf(rng, 4, kinds=("BS", "PS", "PERM", "U"))
+        return {"steps": steps, "top": {"id": 1, "leaf": spec, "size": gens.leaf_width(spec)}}
+    m = rng.randint(2, chk.pick(5, 7))
+    if rng.random() < 0.05:
+        m = rng.randint(WIDE_MIN, chk.pick(11, 14))
+    pool, counter = [], [0]
+    top = gen_inv_node(rng, m, rng.randint(0, 2), rng.randint(1, chk.pick(5, 8)), pool, counter)
+    if rng.random() < 0.6:
+        # the quantifier's "beam splitters with four unequal phases", in every second history at least
+        counter[0] = max(n["id"] for n in pool) + 1
+        leaf = {"id": counter[0], "leaf": gen_bs_four_phases(rng), "size": 2}
+        top["ops"].insert(rng.randrange(len(top["ops"]) + 1), {"off": rng.randint(0, m - 2), "node": leaf,
+                                                               "how": rng.choice(["nest", "fd"])})
+    return {"steps": steps, "top": top}
+
+
+def chain_apply(obj, st, m):
+    """one transformation of the real code applied to `obj`; returns the object work goes on with"""
+    import perceval as pcvl
+    k = st["k"]
+    if k.startswith("inv-"):
+        obj.inverse(v="v" in k[4:], h="h" in k[4:])
+        return obj
+    if k == "copy":
+        return obj.copy()
+    if k == "simplify":
+        from perceval.utils.algorithms.simplification import simplify
+        return simplify(obj, display=st["display"])
+    if k == "decompose":
+        from perceval.components.comp_utils import decompose_perms
+        return decompose_perms(obj, merge=st["merge"])
+    proc = pcvl.Processor("SLOS", m)
+    proc.add(0, obj)
+    if k == "pcopy":
+        return proc.copy().linear_circuit()
+    if k == "flatten":
+        return proc.linear_circuit(flatten=True)
+    if k == "regroup":
+        c = pcvl.Circuit(m)
+        for r, x in proc.non_unitary_circuit():
+            c.add(tuple(int(i) for i in r), x)
+        return c
+    raise ValueError(k)
+
+
+def chain_law(u, st):
+    k = st["k"]
+    return xform_np(u, "v" in k[4:], "h" in k[4:]) if k.startswith("inv-") else u
+
+
+def real_tree(obj):
+    """the real object as a tree of the model: containers as they are, leaves by their own matrices"""
+    from perceval.components import PERM
+    from perceval.components.unitary_components import Barrier
+    parts = container_parts(obj)
+    if parts is not None:
+        return {"circ": parts[0], "items": [[int(list(r)[0]), real_tree(c)] for r, c in parts[1]]}
+    if isinstance(obj, Barrier):
+        return {"barrier": obj.m}
+    if isinstance(obj, PERM):
+        return {"perm": [int(x) for x in obj.perm_vector]}
+    return {"un": obj.m, "U": gens.leaf_matrix_json(obj)}
+
+
+def leaves_of(obj, out=None, seen=None):
+    if out is None:
+        out, seen = [], set()
+    parts = container_parts(obj)
+    if parts is None:
+        if id(obj) not in seen:
+            seen.add(id(obj))
+            out.append(obj)
+    else:
+        for _, c in parts[1]:
+            leaves_of(c, out, seen)
+    return out
+
+
+DESCRIBE_TOL = 1e-3     # describe() prints angles with 6 significant digits (simple_float, precision 1e-6)
+
+
+def describe_rebuild(obj):
+    """eval(obj.describe()) for circuits of BS / PS / PERM / Barrier (a Unitary prints a rounded matrix that is no
+    longer unitary): None when the text is not evaluable"""
+    import perceval.components as comps
+    ns = {k: getattr(comps, k) for k in ("BS", "PS", "PERM", "Circuit", "Barrier") if hasattr(comps, k)}
+    ns.update(pi=math.pi, sqrt=math.sqrt)
+    try:
+        return eval(obj.describe(), {"__builtins__": {}}, ns)
+    except Exception:
+        return None
+
+
+def judge_chain_(chk, case, count=True):
+    from perceval.components import BS, PS, PERM
+    from perceval.components.unitary_components import Barrier
+    top, steps = case["top"], case["steps"]
+    rp = {"case": case}
+    b = Builder()
+    b.index(top)
+    obj = b.build(top)
+    m = obj.m
+    tree, seg = b.lean(top), []
+    u_prev = np_u(obj)
+    done = []
+
+    def history(k):
+        return " ; ".join(s["k"] + ("(display)" if s.get("display") else "") + ("(merge)" if s.get("merge") else "")
+                          for s in steps[:k])
+    for i, st in enumerate(steps, 1):
+        k = st["k"]
+        try:
+            with time_limit(HANG_LIMIT):
+                obj = chain_apply(obj, st, m)
+                u_new = np_u(obj)
+        except ImplHang as e:
+            return ("violation", f"chain-{k}-does-not-return", f"history [{history(i)}]: step {i} has not returned "
+                    f"after {HANG_LIMIT} s", rp)
+        except Exception as e:
+            if isinstance(e, ValueError) and "out of bound" in str(e):
+                chk.branch("skipped-C14-wrap")
+                return None
+            return ("violation", f"chain-{k}-raises", f"history [{history(i)}] on one object: step {i} ({k}) raises "
+                    f"{type(e).__name__}: {str(e)[:100]}", rp)
+        # ---- direct oracle: the matrix law of this step on the object the previous step left
+        want = chain_law(u_prev, st)
+        if not close_np(u_new, want):
+            after = f" after [{history(i - 1)}]" if i > 1 else ""
+            return ("violation", f"chain-{k}-matrix", f"{k}{after} on one object: the matrix is not "
+                    f"{'the advertised transform of' if k.startswith('inv-') else 'that of'} the object it was applied to "
+                    f"(deviates by {float(np.max(np.abs(u_new - want))) if u_new.shape == want.shape else 'shape'})", rp)
+        # ---- the model's history
+        if k.startswith("inv-") or k in CHAIN_TRANSPARENT:
+            seg = seg + [["inv", "v" in k[4:], "h" in k[4:]] if k.startswith("inv-") else CHAIN_TRANSPARENT[k]]
+            rep = chk.lean.ask({"op": "chain", "tree": tree, "steps": seg})
+            if "err" in rep:
+                return ("broken", "chain-model-error", rep["err"], rp)
+            if not close_np(u_new, np.array(core.unmat(rep["U"]), dtype=complex)):
+                return ("broken", "chain-model-vs-code", f"history [{history(i)}]: the matrix differs from the model's "
+                        f"although every step obeys its law on the real objects", rp)
+            flat = [[int(r[0]), len(r)] for r, _ in obj] if container_parts(obj) is not None else [[0, obj.m]]
+            if flat != rep["flat"]:
+                return ("broken", "chain-ranges-model-vs-code", f"history [{history(i)}]: components at {flat}, "
+                        f"model {rep['flat']}", rp)
+        else:
+            # the list was rebuilt (simplify / decompose_perms / regroup): the law is the identity; read it back
+            new_tree = real_tree(obj)
+            rep = chk.lean.ask({"op": "chain", "tree": new_tree, "steps": []})
+            if "err" in rep:
+                return ("broken", "chain-model-error", f"{rep['err']} (list read back after {k})", rp)
+            prev = chk.lean.ask({"op": "chain", "tree": tree, "steps": seg})
+            if not close_np(np.array(core.unmat(rep["U"]), dtype=complex), np.array(core.unmat(prev["U"]), dtype=complex)):
+                return ("broken", "chain-model-vs-code", f"history [{history(i)}]: the model's matrix of the list read back "
+                        f"after {k} is not the model's matrix before it", rp)
+            tree, seg = new_tree, []
+        u_prev = u_new
+        done.append(k)
+    # ---- what the last step left: every component on its own can be copied (its second view is in step)
+    for leaf in leaves_of(obj):
+        if not hasattr(leaf, "compute_unitary"):
+            continue
+        try:
+            ul, uc = np_u(leaf), np_u(leaf.copy())
+        except Exception as e:
+            return ("violation", "chain-leaf-copy-raises", f"history [{history(len(steps))}]: copy() of the resulting "
+                    f"{type(leaf).__name__} raises {type(e).__name__}: {str(e)[:100]}", rp)
+        if not close_np(ul, uc):
+            return ("violation", "chain-leaf-copy-matrix", f"history [{history(len(steps))}]: copy() of the resulting "
+                    f"{type(leaf).__name__} has another matrix (by {float(np.max(np.abs(ul - uc))):.3g})", rp)
+    lv = leaves_of(obj)
+    if lv and all(isinstance(x, (BS, PS, PERM, Barrier)) for x in lv):
+        rebuilt = describe_rebuild(obj)
+        if rebuilt is not None:
+            try:
+                ur = np_u(rebuilt)
+            except Exception:
+                ur = None
+            if ur is not None and ur.shape == u_prev.shape:
+                if count:
+                    chk.branch("chain-describe-rebuilt")
+                if float(np.max(np.abs(ur - u_prev))) > DESCRIBE_TOL * max(1, len(lv)):
+                    # describe() is not one of the property's transformations: the object's printed form and its
+                    # matrix disagree, the property's own clauses hold on this input
+                    return ("broken", "chain-describe-rebuild", f"history [{history(len(steps))}]: the circuit rebuilt "
+                            f"from describe() deviates by {float(np.max(np.abs(ur - u_prev))):.3g}", rp)
+    if count:
+        for a, c in zip(done, done[1:]):
+            chk.branch(f"chain-{a}->{c}")
+        if len(done) >= 3:
+            chk.branch("chain-three-or-more-steps")
+    return None
+
+
+def judge_chain(chk, case, count=True):
+    try:
+        return judge_chain_(chk, case, count)
+    except core.LeanError:
+        raise
+    except (AssertionError, RuntimeError, ValueError, IndexError, TypeError, KeyError, AttributeError,
+            NotImplementedError) as e:
+        where = perceval_frame(e)
+        if where is None:
+            raise
+        return ("violation", "chain-raises", f"{where} raises {type(e).__name__}: {str(e)[:100]} in a history of "
+                f"transformations of a valid circuit", {"case": case})
+
+
+def perceval_frame(e):
+    """file:function of the innermost frame of the code under test in the traceback of `e` (None: the exception was
+    raised and stayed in the harness)"""
+    import traceback
+    tb = traceback.extract_tb(e.__traceback__)
+    return next((f"{os.path.basename(fr.filename)}:{fr.name}" for fr in reversed(tb)
+                 if "perceval" in fr.filename and "/harness/" not in fr.filename), None)
+
+
+def shrink_chain(chk, case, sig):
+    cur = copy.deepcopy(case)
+    budget = 80
+
+    def fails(c):
+        try:
+            r = judge_chain(chk, c, count=False)
+        except Exception:
+            return False
+        return r is not None and r[1] == sig
+    changed = True
+    while changed and budget > 0:
+        changed = False
+        for i in range(len(cur["steps"])):
+            if len(cur["steps"]) <= 1:
+                break
+            cand = copy.deepcopy(cur)
+            del cand["steps"][i]
+            budget -= 1
+            if fails(cand):
+                cur, changed = cand, True
+                break
+        if changed or "circ" not in cur["top"]:
+            continue
+        for i in range(len(cur["top"]["ops"])):
+            if len(cur["top"]["ops"]) <= 1:
+                break
+            cand = copy.deepcopy(cur)
+            del cand["top"]["ops"][i]
+            budget -= 1
+            if fails(cand):
+                cur, changed = cand, True
+                break
+    return cur
+
+
+def handle_chain(chk, case):
+    b = Builder()
+    b.index(case["top"])
+    specs, occ = {}, {}
+    leaf_specs(case["top"], b.specs, specs)
+    count_occurrences(case["top"], b.specs, occ)
+    if any(four_unequal(s) for s in specs.values()):
+        chk.branch("chain-bs-four-unequal-phases")
+    if any(n > 1 for n in occ.values()):
+        chk.branch("chain-shared-object")
+    if "leaf" in case["top"]:
+        chk.branch("chain-lone-component")
+    elif has_nested_offset(case["top"], b.specs):
+        chk.branch("chain-nested-offset")
+    names = [s["k"] for s in case["steps"]]
+    chk.count("chain_len", len(names))
+    res = judge_chain(chk, case)
+    chk.case(("chain", json.dumps(case, sort_keys=True)[:3000]), nontrivial=len(specs) >= 2 or "leaf" in case["top"],
+             sample={"part": "chain", "steps": names, "leaves": [s["t"] for s in specs.values()][:6]})
+    if res is not None:
+        kind, sig, what, replay = res
+        small = shrink_chain(chk, case, sig) if kind == "violation" else case
+        chk.fail(kind, sig, what, {"part": "chain", "case": small})
+
+
+# ------------------------------------------------------------------------------------------------
 PARTS = {"inverse": handle_inverse, "simplify": handle_simplify, "decompose": handle_decompose,
-         "flatten": handle_flatten, "copy": handle_copy}
+         "flatten": handle_flatten, "copy": handle_copy, "chain": handle_chain}
+
+
+def run_part(chk, part, case):
+    """one case of one family.  Nothing the code under test does on a legal input may end the run: an exception that
+    escapes a family's own handling is reported for the input at hand - as a violation when it was raised by the
+    code under test, as a disagreement when the harness could not evaluate what the code returned."""
+    try:
+        PARTS[part](chk, case)
+    except core.LeanError:
+        raise
+    except Exception as e:
+        where = perceval_frame(e)
+        if where is not None:
+            chk.fail("violation", f"{part}-raises", f"{where} raises {type(e).__name__}: {str(e)[:120]} on a valid input "
+                     f"of the {part} family", {"part": part, "case": case})
+        else:
+            import traceback
+            fr = traceback.extract_tb(e.__traceback__)[-1]
+            chk.fail("broken", f"{part}-result-not-evaluable", f"the result of the implementation could not be evaluated "
+                     f"({type(e).__name__}: {str(e)[:120]} at {os.path.basename(fr.filename)}:{fr.lineno})",
+                     {"part": part, "case": case})
+
+
+def run_whole(chk, fn, name):
+    try:
+        fn(chk)
+    except core.LeanError:
+        raise
+    except Exception as e:
+        where = perceval_frame(e)
+        chk.fail("violation" if where else "broken", f"{name}-raises" if where else f"{name}-result-not-evaluable",
+                 f"{where or 'harness'}: {type(e).__name__}: {str(e)[:120]}", {"part": name})
 
 
 def load_corpus():
@@ -1879,31 +2386,52 @@ def run(chk: core.Check):
         "deepcopy-shared-subcircuit", "deepcopy-with-loss", "deepcopy-lone-component", "deepcopy-subs-none",
         "deepcopy-subs-empty", "deepcopy-subs-symbolic", "deepcopy-mutate-copy", "deepcopy-mutate-original",
         "deepcopy-mutate-original-shared",
+        # two permutations meeting in the successive branch of _simplify_perm / in perm_compose: every relation of the
+        # two mode ranges, the shifted equal-size ones in both display modes
+        *["perm-pair-" + rel for rel in PAIR_RELATIONS], *["perm-compose-pair-" + rel for rel in PAIR_RELATIONS],
+        "perm-pair-same-size-shifted-overlap-display", "perm-pair-same-size-shifted-overlap-compute",
+        "perm-pair-same-size-disjoint-display", "perm-pair-same-size-disjoint-compute",
+        "perm-pair-non-self-inverse-off-range",
+        # histories on one object: every ordered pair of transformations
+        *[f"chain-{a}->{b}" for a, b in CHAIN_PAIRS], "chain-three-or-more-steps", "chain-bs-four-unequal-phases",
+        "chain-shared-object", "chain-lone-component", "chain-nested-offset", "chain-describe-rebuilt",
     ]
     chk.lean = core.LeanDriver("C11")
     rng = chk.rng
     for data in load_corpus():
-        PARTS[data["part"]](chk, data["case"])
+        run_part(chk, data["part"], data["case"])
     # the required branches must be reached by the generators themselves, not by the stored cases
     chk.extra["corpus_branches"] = dict(chk.branches)
     chk.branches = {}
-    run_perm_helpers(chk)
-    run_bubble(chk)
+    run_whole(chk, run_perm_helpers, "perm-helper")
+    run_whole(chk, run_bubble, "bubble")
     for _ in range(chk.pick(700, 4000)):
-        handle_inverse(chk, gen_inv_case(rng, chk))
+        run_part(chk, "inverse", gen_inv_case(rng, chk))
     for i in range(chk.pick(800, 3000)):
         case = gen_simp_case(rng, chk)
-        handle_simplify(chk, case)
+        run_part(chk, "simplify", case)
         if i % 4 == 0:
-            handle_decompose(chk, case)
+            run_part(chk, "decompose", case)
     shift_cases = gen_shift_cases(rng, chk)
     chk.extra["shift_cases"] = len(shift_cases)
     for case in shift_cases:
-        handle_simplify(chk, case)
+        run_part(chk, "simplify", case)
     for _ in range(chk.pick(450, 2500)):
-        handle_flatten(chk, gen_flat_case(rng, chk))
+        run_part(chk, "flatten", gen_flat_case(rng, chk))
     for _ in range(chk.pick(300, 1500)):
-        handle_copy(chk, gen_copy_case(rng, chk))
+        run_part(chk, "copy", gen_copy_case(rng, chk))
+    # runs of consecutive permutations in every relation of their mode ranges
+    for i in range(chk.pick(300, 1500)):
+        case = gen_simp_perm_runs(rng, chk)
+        run_part(chk, "simplify", case)
+        if i % 4 == 0:
+            run_part(chk, "decompose", case)
+    # histories on one object: every ordered pair of transformations, then free histories
+    for pair in CHAIN_PAIRS:
+        for _ in range(chk.pick(4, 16)):
+            run_part(chk, "chain", gen_chain_case(rng, chk, pair))
+    for _ in range(chk.pick(150, 800)):
+        run_part(chk, "chain", gen_chain_case(rng, chk))
 
 
 def replay(chk, data):
